@@ -833,6 +833,17 @@ pub fn macro_fragments(tap: bool) -> Vec<T> {
     } else {
         v.push(T::Multi(2, vec!["K1".into(), "K2".into(), "K3".into()]));
     }
+    // or_c: the one combinator whose smallest useful instance (six nodes, and eight once it is closed
+    // into a B by t:) lies beyond the plain enumeration and beyond the hole fillers of the contexts
+    {
+        let pk = |k: &str| T::Check(b(T::PkK(k.into())));
+        let orc = |z: T| T::OrC(b(pk("K1")), b(T::Verify(b(z))));
+        for z in [pk("K2"), sha("H1"), T::Older(5), T::After(10)] {
+            v.push(orc(z.clone()));
+            v.push(T::AndV(b(orc(z)), b(T::True)));
+        }
+        v.push(T::AndV(b(orc(pk("K2"))), b(pk("K3"))));
+    }
     let wrapped: Vec<T> = v.iter().flat_map(|x| vec![T::Alt(b(x.clone())), T::Swap(b(x.clone()))]).collect();
     v.extend(wrapped);
     v
